@@ -39,6 +39,9 @@ def gen(rng, tier):
            "explicit_source": rng.choice(["src", "ensembl"])}
     if custom:
         cfg.update({"transcript_key": "tid", "gene_key": "gid", "subfeature": "part"})
+    long_run = rng.random() < 0.04  # a minority of long inputs (batch-size / buffer effects)
+    if long_run:
+        cfg.update({"max_genes": rng.choice([150, 300, 450]), "n_exons": [1, 1, 2, 3]})
     feats = []
     while not feats:
         feats = G.gtf_annotation(rng, cfg)
@@ -179,5 +182,7 @@ def run(case):
         out["stats"] = w.stats
     out["trace_hash"] = core.digest(journal)
     out["nontrivial"] = any(m["cols"][2] == "transcript" for m in model.feats.values())
+    if len(case["feats"]) > 300:
+        probes["long_input_over_300_lines"] = 1
     out["sample"] = {"lines": G.lines_of(case["feats"], G.DEFAULT_GTF)[:8], "kw": kw, "form": case["form"], "fault": fault}
     return out
